@@ -3,11 +3,14 @@
 // is closed, compared with the Lean object-graph model (oracle topic c09).
 //
 // Tie B: per op, the real answer equals the model's answer as long as the model says the history is
-//        safe; at GC points the Go pointers found by a reflection walk over the real heap are compared
-//        with the model's strong edges (instance → instance, instance → its compiled module).
+//
+//	safe; at GC points the Go pointers found by a reflection walk over the real heap are compared
+//	with the model's strong edges (instance → instance, instance → its compiled module).
+//
 // Tie C: the child must survive, and every call must return what the twin returns or fail with the
-//        ordinary "module closed" error; outstanding calls during close must end with a value or an
-//        ordinary error.
+//
+//	ordinary "module closed" error; outstanding calls during close must end with a value or an
+//	ordinary error.
 package main
 
 import (
@@ -137,6 +140,16 @@ func askModel(h *History, usePin bool) (steps []modelStep, reach map[int]string)
 	orc.Askf("c09 reset %d %s %s %s", id, h.Engine, b2s(h.Cache), b2s(usePin))
 	reach = map[int]string{}
 	for k, op := range h.Ops {
+		if strings.HasPrefix(op, "dupname") {
+			// no effect in the model: a refused (or immediately closed) instantiation changes nothing for the others
+			st := modelStep{Ans: "ok", Shadow: true, Disc: true, PrimsOK: true}
+			if len(steps) > 0 {
+				st.Shadow = steps[len(steps)-1].Shadow
+			}
+			steps = append(steps, st)
+			continue
+		}
+		op = strings.TrimSuffix(op, " anon") // names are not part of the model
 		a := orc.Askf("c09 op %d %s", id, op)
 		f := strings.Fields(a)
 		if len(f) != 4 {
@@ -257,9 +270,9 @@ func evalHistory(h *History, label string) (observed bool) {
 			}
 		}
 		if strings.HasPrefix(r, "PANIC") {
-			if strings.HasPrefix(op, "inst") && strings.Contains(r, "nil_map") && closedCacheBefore(h, k) {
+			if (strings.HasPrefix(op, "inst") || strings.HasPrefix(op, "dupname")) && strings.Contains(r, "nil_map") && closedCacheBefore(h, k) {
 				rep.Violate(hx.Violation{Kind: "impl-violation", Signature: "N1:compiler:compile-after-cache-close-panics-nil-map",
-					What: fmt.Sprintf("op %d %q: CompileModule on a live runtime whose compilation cache was closed panics in the host (%s) instead of returning an error", k, op, r),
+					What:  fmt.Sprintf("op %d %q: CompileModule on a live runtime whose compilation cache was closed panics in the host (%s) instead of returning an error", k, op, r),
 					Input: h, Expected: steps[k].Ans, Actual: r})
 				return false
 			}
@@ -424,6 +437,10 @@ func corpus() []*History {
 		mk(false, "inst 1 - priv", "inst 0 - priv", "pass 0 own 1 glob", "close 0", "closecm 0", "drop 0", "gc", "pass 1 glob 1 tab:0", "call 1 tab:0 5")
 		mk(false, "inst 2 - priv", "inst 0 - priv", "inst 1 0 priv", "pass 1 imp 2 tab:1", "close 1", "closecm 1", "close 0", "closecm 0", "drop 0", "drop 1", "gc", "call 2 tab:1 5")
 		mk(false, "inst 1 - exp", "inst 2 - imp:1", "inst 0 - priv", "pass 0 own 2 tab:1", "close 0", "closecm 0", "drop 0", "gc", "call 1 tab:1 5")
+		// an open anonymous instance whose only owner is the store's module list, with a refused instantiation
+		// (duplicate name: closed without ever having been listed) and a close of the list head around it
+		mk(false, "inst 0 - priv", "inst 1 - priv anon", "dupname 0", "inst 2 - priv anon", "pass 2 own 0 tab:1", "call 0 tab:1 3", "drop 2", "close 1", "gc", "call 0 tab:1 3")
+		mk(false, "inst 0 - priv", "inst 1 - priv anon", "pass 1 own 0 tab:2", "drop 1", "dupname 0", "dupname 0", "gc", "call 0 tab:2 7")
 	}
 	return hs
 }
@@ -450,13 +467,13 @@ func (g *gen) history(engine string) *History {
 	order := r.Perm(n)
 	idxOf := map[int]int{}
 	var exps []int
-	var live []int
+	var live, importable []int
 	add := func(op string) { h.Ops = append(h.Ops, op) }
 	for _, i := range order {
 		s := &ist{imp: -1, tab: "priv"}
 		imp := "-"
-		if len(live) > 0 && r.Intn(100) < 40 {
-			s.imp = g.pick(live)
+		if len(importable) > 0 && r.Intn(100) < 40 {
+			s.imp = g.pick(importable)
 			imp = fmt.Sprint(s.imp)
 		}
 		switch x := r.Intn(100); {
@@ -472,13 +489,23 @@ func (g *gen) history(engine string) *History {
 		if !strings.HasPrefix(s.tab, "imp") {
 			s.owner = i
 		}
-		add(fmt.Sprintf("inst %d %s %s", i, imp, s.tab))
+		anon := ""
+		if s.tab != "exp" && r.Intn(100) < 35 {
+			anon = " anon" // nobody can import from it; only the store's list keeps it once the host drops it
+		}
+		add(fmt.Sprintf("inst %d %s %s%s", i, imp, s.tab, anon))
 		if s.tab == "exp" {
 			exps = append(exps, i)
 		}
 		idxOf[i] = len(insts)
 		insts = append(insts, s)
 		live = append(live, i)
+		if anon == "" {
+			importable = append(importable, i)
+		}
+		if r.Intn(6) == 0 {
+			add(fmt.Sprintf("dupname %d", g.pick(live)))
+		}
 	}
 	held := func() []int {
 		var hs []int
@@ -567,6 +594,8 @@ func (g *gen) history(engine string) *History {
 				add("closecache")
 			case x < 80:
 				add("droprt")
+			case x < 88:
+				add(fmt.Sprintf("dupname %d", g.pick(live)))
 			default:
 				add("gc")
 			}
